@@ -963,7 +963,135 @@ structure StepJ where
   op : String
   «in» : Json
   out : Json
+  /-- number of harness-side mutations of the store before this step -/
+  env : Option Nat := none
   deriving FromJson
+
+instance : Inhabited StepJ := ⟨{ fn := "", op := "", «in» := Json.null, out := Json.null }⟩
+
+/-! ### L3 transition check: the world the cluster machine (`EdsModel/Cluster.lean`) predicts after a
+reconcile step is the world the next reconcile of the same ExtendedDaemonSet actually read, whenever
+only controller writes happened in between.  Compared up to timestamps and generated names (the
+per-step handlers compare the written contents exactly): this validates the *apply* half of `step` —
+what a status / spec / create / delete / label write does to the stored objects. -/
+
+def condShape (c : Cond) : String := s!"{c.type}={c.status}[{c.reason}|{c.message}]"
+
+def edsShape (d : EDS) : String :=
+  let st := d.status
+  s!"hash={d.templateHash} tn={d.templateName} ann=[{smapStr d.annotations}] strat={flat d.strategy} " ++
+  s!"d={st.desired} c={st.current} r={st.ready} a={st.available} u={st.upToDate} i={st.ignored} state={st.state} " ++
+  s!"active={st.activeReplicaSet} reason={st.reason} canary={flat st.canary} conds={st.conds.map condShape}"
+
+def ersShape (e : ERS) : String :=
+  s!"{e.ns}/{e.name} gen={e.templateGeneration} owner={e.ownerEds} labels=[{smapStr e.labels}] ann=[{smapStr e.annotations}] " ++
+  s!"d={e.status.desired} c={e.status.current} r={e.status.ready} a={e.status.available} i={e.status.ignored} conds={e.status.conds.map condShape}"
+
+def podShape (p : Pod) : String :=
+  s!"{p.ns}/{(p.nodeOf).getD "?"}/{(SMap.get? p.annotations K.templateHashAnnot).getD "-"}/term={p.deletion.isSome}/canary={(SMap.get? p.labels K.canaryLabel).getD "-"}/ers={(SMap.get? p.labels K.ersNameLabel).getD "-"}"
+
+def ownPodShapes (d : EDS) (pods : List Pod) : List String :=
+  sortStrs ((pods.filter (fun p => p.ns == d.ns && SMap.get? p.labels K.edsNameLabel == some d.name)).map podShape)
+
+structure StepWorld where
+  w : World
+  /-- the replica set the step reconciles (replica-set steps) -/
+  rs : Option ERS
+  /-- the step listed every replica set (daemonset steps) -/
+  fullErs : Bool
+  /-- the predicted next world, given the name the API server gave a created replica set.  Where the
+  controller's choice depends on Go's map iteration order (which candidates fill a limited budget)
+  the implementation's own choice is applied — the per-step handler has checked that it is admissible. -/
+  next : Option String → World
+
+def stepWorld (st : StepJ) : Except String (Option StepWorld) := do
+  let inp := st.«in»
+  let faulted : Bool := (inp.getObjValAs? Bool "faulted").toOption.getD false
+  if faulted then return none else
+  if st.fn == "eds_reconcile" then
+    let d : EDS ← get inp "eds"
+    let all : List ERS ← get inp "ers"
+    let pods : List Pod ← get inp "pods"
+    let nodes : List Node ← get inp "nodes"
+    let mode : String ← get inp "defaultMode"
+    let now : Time ← get inp "now"
+    return some { w := { eds := d, erss := all, pods := pods, nodes := nodes, settings := [], daemonsets := [], now := now },
+                  rs := none, fullErs := true,
+                  next := fun nn => step { eds := d, erss := all, pods := pods, nodes := nodes, settings := [], daemonsets := [], now := now }
+                                         (.reconcileEds (nn.getD "?new") mode) }
+  else if st.fn == "ers_reconcile" then
+    let rs : ERS ← get inp "ers"
+    let d : EDS ← get inp "eds"
+    let nodes : List Node ← get inp "nodes"
+    let pods : List Pod ← get inp "pods"
+    let settings : List Setting ← get inp "settings"
+    let dss : List DsJ ← get inp "daemonsets"
+    let aff : Bool ← get inp "affinity"
+    let now : Time ← get inp "now"
+    let inBackoff : List String := (inp.getObjValAs? (List String) "inBackoff").toOption.getD []
+    let w : World := { eds := d, erss := [rs], pods := pods, nodes := nodes, settings := settings,
+                       daemonsets := dss.map (fun x => { name := x.name, ns := x.ns, selector := x.selector }), now := now }
+    let o : ErsOutJ ← fromJson? st.out
+    let m := Cluster.ersWrites w rs (fun n => !inBackoff.contains n) aff
+    -- the implementation's choice among the candidates
+    let chosen : ErsWrites :=
+      { m with
+        creates := (m.createCands.filter (fun ni => o.creates.any (fun c => c.node == ni.node.name))).map
+                     (fun ni => (ni.node.name, (createPod rs (some ni.node) ni.setting aff).pod)),
+        deletes := o.deleted.filter (fun x => !m.cleanupDeletes.contains x) }
+    return some { w := w, rs := some rs, fullErs := false,
+                  next := fun _ => if d.ns == rs.ns then Cluster.applyErs w rs chosen else w }
+  else return none
+
+/-- findings of the transition from step `a` to the next step `b` of the same daemonset. -/
+def transition (k : Nat) (a b : StepWorld) : Findings :=
+  -- the name the API server gave a replica set created by step `a`
+  let known := a.w.erss.map (·.name)
+  let fresh := ((ownErs a.w.eds b.w.erss).filter (fun e => !known.contains e.name)).map (·.name)
+  let w' := a.next fresh.head?
+  let fs : Findings := #[]
+  let tag := s!"L3.step{k}"
+  let fs := diff fs s!"{tag}.eds" (edsShape b.w.eds) (edsShape w'.eds)
+  let fs := diff fs s!"{tag}.pods" (ownPodShapes b.w.eds b.w.pods) (ownPodShapes w'.eds w'.pods)
+  -- replica sets: everything both sides know about
+  let own := fun (l : List ERS) => ownErs a.w.eds l
+  if a.fullErs && b.fullErs then
+    diff fs s!"{tag}.ers" (sortStrs ((own b.w.erss).map ersShape)) (sortStrs ((own w'.erss).map ersShape))
+  else
+    -- compare the replica sets the later step shows with the prediction for them, when predicted
+    (own b.w.erss).foldl (fun fs e =>
+      match w'.erss.find? (fun x => x.ns == e.ns && x.name == e.name) with
+      | some x => diff fs s!"{tag}.ers({e.name})" (ersShape e) (ersShape x)
+      | none => if a.fullErs then fs.push s!"DIFF {tag}.ers({e.name}) impl=present model=absent" else fs) fs
+
+def sameEds (a b : StepWorld) : Bool := a.w.eds.ns == b.w.eds.ns && a.w.eds.name == b.w.eds.name
+
+def transitions (steps : List StepJ) : Except String Findings := do
+  let mut fs : Findings := #[]
+  let arr := steps.toArray
+  for k in [0:arr.size] do
+    let sa := arr[k]!
+    match (← stepWorld sa) with
+    | none => pure ()
+    | some a =>
+      -- the next reconcile step of the same daemonset
+      let mut j := k + 1
+      let mut found : Option (StepJ × StepWorld) := none
+      while j < arr.size && found.isNone do
+        let sb := arr[j]!
+        if sb.fn == "eds_reconcile" || sb.fn == "ers_reconcile" then
+          -- a faulted step in between may have written anything: stop looking
+          let faulted : Bool := (sb.«in».getObjValAs? Bool "faulted").toOption.getD false
+          match (← stepWorld { sb with «in» := sb.«in».setObjVal! "faulted" (Json.bool false) }) with
+          | some b => if sameEds a b then found := some (sb, b) else if faulted then j := arr.size else pure ()
+          | none => pure ()
+        j := j + 1
+      match found with
+      | some (sb, b) =>
+        if sa.env.isSome && sa.env == sb.env then
+          for f in transition k a b do fs := fs.push (f ++ s!" @step{k}[{sa.op}]->[{sb.op}]")
+      | none => pure ()
+  return fs
 
 /-! ### metric families (C20 gauges) -/
 structure SampleJ where
@@ -1157,6 +1285,7 @@ def hScenario (_inp out : Json) : Except String Findings := do
         for f in underFault st.«in» fsk do
           fs := fs.push (f ++ s!" @step{k}[{st.op}]")
     k := k + 1
+  for f in (← transitions steps) do fs := fs.push f
   return fs
 
 def handleLine (line : String) : String :=
